@@ -102,6 +102,21 @@ PROPS = {
             U("c11", "TestRequests", T(5, 16, 400, shrinktime="60s"), T(40, 16, 3000, shrinktime="240s"), needs=["nodeexec"]),
         ],
     },
+    "C17": {
+        "level": "exploration",
+        "units": [
+            U("c17", "TestSender", T(12, 16, 300), T(200, 16, 2400)),
+        ],
+    },
+    "C18": {
+        "level": "exploration",
+        "units": [
+            U("c18", "TestAtMostOnce", T(60, 4, 300), T(800, 8, 2400)),
+            U("c18", "TestNetwork", T(5, 8, 300, shrinktime="30s"), T(60, 16, 2400, shrinktime="90s")),
+            U("c18", "TestTopologyModel", T(1500, 2, 300), T(30000, 4, 2400)),
+            U("c18", "TestTopologyRace", T(30, 2, 300), T(400, 4, 2400), race=True),
+        ],
+    },
     "C12": {
         "level": "exploration",
         "units": [
@@ -137,4 +152,4 @@ PROPS = {
 }
 
 # commits in /repo that add the build-tag-guarded hooks
-HOOK_COMMITS = ["e12f4a5"]
+HOOK_COMMITS = ["e12f4a5", "311d23f"]
